@@ -12,11 +12,15 @@ Variable inline : bool.
 
 Notation html := (to_html maxl inline).
 Notation to_td := (to_td_with inline (to_html maxl inline)).
+Notation cellf := (cell_with inline (to_html maxl inline)).
 
 Lemma html_clo : forall v cls, html v SCloErr cls = None.
 Proof. destruct v; reflexivity. Qed.
 
 Lemma html_fmt : forall c cs f inner st cls, st <> SCloErr -> html (HFmt c cs f inner) st cls = html inner f cls.
+Proof. intros. destruct st; try reflexivity. congruence. Qed.
+
+Lemma html_fmtclo : forall c cs r inner st cls, st <> SCloErr -> html (HFmtClo c cs r inner) st cls = html r SNone cls.
 Proof. intros. destruct st; try reflexivity. congruence. Qed.
 
 Lemma html_lnk : forall l inner st cls, st <> SCloErr ->
@@ -25,6 +29,11 @@ Lemma html_lnk : forall l inner st cls, st <> SCloErr ->
 Proof. intros. destruct st; try reflexivity. congruence. Qed.
 
 Lemma html_float : forall s st cls, st <> SCloErr -> html (HFloat s) st cls = Some ([OWrite s], cls).
+Proof. intros. destruct st; try reflexivity. congruence. Qed.
+
+Lemma html_file : forall name mime b64 size st cls, st <> SCloErr ->
+  html (HFile name mime b64 size) st cls =
+  Some ([OOpen s_a; OAttr s_href (file_href mime b64); OAttr s_download name; OWrite (file_text name size); OClose], cls).
 Proof. intros. destruct st; try reflexivity. congruence. Qed.
 
 Lemma html_str : forall s st cls, st <> SCloErr -> html (HS s) st cls = Some (html_string inline s st cls).
@@ -44,11 +53,26 @@ Lemma html_list : forall items st cls, st <> SCloErr ->
        | [] => Some ([], cls)
        | first :: _ =>
            let '(a, cls0) := style_attr inline st cls in
-           bind (if is_HL first then table_rows maxl to_td items 1 cls0
+           bind (if is_HL first then table_rows maxl (cellf (tf_of st)) items 1 cls0
                  else simple_rows maxl to_td items 1 cls0)
                 (fun rows clsN => Some (OOpen s_table :: a ++ rows ++ [OClose], clsN))
        end.
 Proof. intros. destruct st; try reflexivity. congruence. Qed.
+
+Lemma cell_plain_eq : forall tf row col y cls, cell_plain (tf_lookup tf row col) = true ->
+  cellf tf row col y cls = to_td y cls.
+Proof.
+  intros tf row col y cls H. unfold cell_with. destruct (tf_lookup tf row col) as [f|]; [|reflexivity].
+  destruct f; try discriminate. reflexivity.
+Qed.
+
+Lemma cell_fmt_eq : forall tf row col y cls f, tf_lookup tf row col = Some f -> f <> SCloId ->
+  cellf tf row col y cls =
+  let '(a, cls1) := style_attr inline f cls in
+  bind (html y SNone cls1) (fun o cls2 => Some (OOpen s_td :: a ++ o ++ [OClose], cls2)).
+Proof.
+  intros tf row col y cls f H Hn. unfold cell_with. rewrite H. destruct f; try reflexivity. congruence.
+Qed.
 
 (* ====================================================================== *)
 (*  errors: a failing element inside the cut-offs makes the whole rendering fail   *)
@@ -68,37 +92,44 @@ Proof.
     rewrite (IH n (i + 1) cls1 e Hn); [reflexivity| |exact He]. lia.
 Qed.
 
-Lemma table_cells_err : forall l n i cls e, nth_error l n = Some e -> N.of_nat n + i <= maxl ->
-  (forall c, td e c = None) -> table_cells maxl td l i cls = None.
+End LoopErr.
+
+Section TLoopErr.
+Variable cell : N -> N -> hval -> list str -> res.
+
+Lemma table_cells_err : forall row l n i cls e, nth_error l n = Some e -> N.of_nat n + i <= maxl ->
+  (forall c, cell row (N.of_nat n + i) e c = None) -> table_cells maxl cell row l i cls = None.
 Proof.
-  induction l as [|x l IH]; intros n i cls e Hn Hi He; [destruct n; discriminate|].
+  intros row. induction l as [|x l IH]; intros n i cls e Hn Hi He; [destruct n; discriminate|].
   cbn [table_cells]. assert (Hle : (i <=? maxl) = true) by (apply N.leb_le; lia). rewrite Hle.
   destruct n as [|n].
-  - inversion Hn; subst. rewrite He. reflexivity.
-  - cbn [nth_error] in Hn. destruct (td x cls) as [[o cls1]|]; [|reflexivity]. cbn [bind].
-    rewrite (IH n (i + 1) cls1 e Hn); [reflexivity| |exact He]. lia.
+  - inversion Hn; subst. change (N.of_nat 0 + i) with i in He. rewrite He. reflexivity.
+  - cbn [nth_error] in Hn. destruct (cell row i x cls) as [[o cls1]|]; [|reflexivity]. cbn [bind].
+    rewrite (IH n (i + 1) cls1 e Hn); [reflexivity|lia|].
+    intro c. replace (N.of_nat n + (i + 1)) with (N.of_nat (S n) + i) by lia. apply He.
 Qed.
 
 (* the row itself fails, whatever class list it starts with *)
-Definition row_cells (x : hval) (cls : list str) : res :=
+Definition row_cells (row : N) (x : hval) (cls : list str) : res :=
   match x with
-  | HL cols => table_cells maxl td cols 1 cls
-  | _ => if 1 <=? maxl then td x cls else Some (more_td, cls)
+  | HL cols => table_cells maxl cell row cols 1 cls
+  | _ => if 1 <=? maxl then cell row 1 x cls else Some (more_td, cls)
   end.
 
 Lemma table_rows_err : forall l n i cls x, nth_error l n = Some x -> N.of_nat n + i <= maxl ->
-  (forall c, row_cells x c = None) -> table_rows maxl td l i cls = None.
+  (forall c, row_cells (N.of_nat n + i) x c = None) -> table_rows maxl cell l i cls = None.
 Proof.
   induction l as [|y l IH]; intros n i cls x Hn Hi Hx; [destruct n; discriminate|].
   cbn [table_rows]. assert (Hle : (i <=? maxl) = true) by (apply N.leb_le; lia). rewrite Hle.
-  fold (row_cells y cls).
+  fold (row_cells i y cls).
   destruct n as [|n].
-  - inversion Hn; subst. rewrite Hx. reflexivity.
-  - cbn [nth_error] in Hn. destruct (row_cells y cls) as [[o cls1]|]; [|reflexivity]. cbn [bind].
-    rewrite (IH n (i + 1) cls1 x Hn); [reflexivity| |exact Hx]. lia.
+  - inversion Hn; subst. change (N.of_nat 0 + i) with i in Hx. rewrite Hx. reflexivity.
+  - cbn [nth_error] in Hn. destruct (row_cells i y cls) as [[o cls1]|]; [|reflexivity]. cbn [bind].
+    rewrite (IH n (i + 1) cls1 x Hn); [reflexivity|lia|].
+    intro c. replace (N.of_nat n + (i + 1)) with (N.of_nat (S n) + i) by lia. apply Hx.
 Qed.
 
-End LoopErr.
+End TLoopErr.
 
 Lemma plain_each_err : forall each l cls e, In e l -> (forall c, each e c = None) -> plain_each each l cls = None.
 Proof.
@@ -121,7 +152,7 @@ Scheme fails_mut := Induction for fails Sort Prop
 Combined Scheme fails_both from fails_mut, fails_td_mut.
 
 Lemma sty_dec : forall st : sty, st = SCloErr \/ st <> SCloErr.
-Proof. destruct st; [right|right|right|left]; congruence. Qed.
+Proof. destruct st; [right|right|right|left|right|right]; congruence. Qed.
 
 Theorem fails_err :
   (forall v st, fails maxl v st -> forall cls, html v st cls = None) /\
@@ -133,6 +164,8 @@ Proof.
     rewrite html_fmt by exact Hs. apply IH.
   - intros l inner st _ IH cls. destruct (sty_dec st) as [->|Hs]; [apply html_clo|].
     rewrite html_lnk by exact Hs. rewrite IH. reflexivity.
+  - intros c cs r inner st _ IH cls. destruct (sty_dec st) as [->|Hs]; [apply html_clo|].
+    rewrite html_fmtclo by exact Hs. apply IH.
   - intros l k e st Hin _ IH cls. destruct (sty_dec st) as [->|Hs]; [apply html_clo|].
     rewrite html_map by exact Hs. destruct (style_attr inline st cls) as [a cls0].
     rewrite (map_rows_err _ cls0 k (to_td e)); [reflexivity| |exact IH].
@@ -145,23 +178,44 @@ Proof.
     destruct items as [|x items']; [discriminate|]. cbn [nth_error] in H0. inversion H0; subst x.
     destruct (style_attr inline st cls) as [a cls0]. rewrite Hf.
     rewrite (simple_rows_err to_td _ i 1 cls0 e Hi); [reflexivity|lia|exact IH].
-  - intros items first r x st Hp H0 Hf Hr Hlt Hx _ IH cls. destruct (sty_dec st) as [->|Hs]; [apply html_clo|].
+  - intros items first r x st Hp H0 Hf Hr Hlt Hx Hlk _ IH cls. destruct (sty_dec st) as [->|Hs]; [apply html_clo|].
     rewrite html_list by exact Hs. rewrite Hp.
     destruct items as [|x0 items']; [discriminate|]. cbn [nth_error] in H0. inversion H0; subst x0.
     destruct (style_attr inline st cls) as [a cls0]. rewrite Hf.
-    rewrite (table_rows_err to_td _ r 1 cls0 x Hr); [reflexivity|lia|].
-    intro c. unfold row_cells. destruct x; try discriminate;
-      (assert (H1 : (1 <=? maxl) = true) by (apply N.leb_le; lia); rewrite H1; apply IH).
-  - intros items first r cols c y st Hp H0 Hf Hr Hlt Hc Hclt _ IH cls.
+    rewrite (table_rows_err (cellf (tf_of st)) _ r 1 cls0 x Hr); [reflexivity|lia|].
+    intro c. unfold row_cells. assert (H1 : (1 <=? maxl) = true) by (apply N.leb_le; lia).
+    destruct x; try discriminate; rewrite H1; rewrite (cell_plain_eq _ _ _ _ _ Hlk); apply IH.
+  - intros items first r x f st Hp H0 Hf Hr Hlt Hx Hlk Hnf _ IH cls. destruct (sty_dec st) as [->|Hs]; [apply html_clo|].
+    rewrite html_list by exact Hs. rewrite Hp.
+    destruct items as [|x0 items']; [discriminate|]. cbn [nth_error] in H0. inversion H0; subst x0.
+    destruct (style_attr inline st cls) as [a cls0]. rewrite Hf.
+    rewrite (table_rows_err (cellf (tf_of st)) _ r 1 cls0 x Hr); [reflexivity|lia|].
+    intro c. unfold row_cells. assert (H1 : (1 <=? maxl) = true) by (apply N.leb_le; lia).
+    destruct x; try discriminate; rewrite H1; rewrite (cell_fmt_eq _ _ _ _ _ f Hlk Hnf);
+      destruct (style_attr inline f c) as [a1 c1]; rewrite IH; reflexivity.
+  - intros items first r cols c y st Hp H0 Hf Hr Hlt Hc Hclt Hlk _ IH cls.
     destruct (sty_dec st) as [->|Hs]; [apply html_clo|].
     rewrite html_list by exact Hs. rewrite Hp.
     destruct items as [|x0 items']; [discriminate|]. cbn [nth_error] in H0. inversion H0; subst x0.
     destruct (style_attr inline st cls) as [a cls0]. rewrite Hf.
-    rewrite (table_rows_err to_td _ r 1 cls0 (HL cols) Hr); [reflexivity|lia|].
-    intro c0. unfold row_cells. apply (table_cells_err to_td cols c 1 c0 y Hc); [lia|exact IH].
+    rewrite (table_rows_err (cellf (tf_of st)) _ r 1 cls0 (HL cols) Hr); [reflexivity|lia|].
+    intro c0. unfold row_cells.
+    apply (table_cells_err (cellf (tf_of st)) (N.of_nat r + 1) cols c 1 c0 y Hc); [lia|].
+    intro c1. rewrite (cell_plain_eq _ _ _ _ _ Hlk). apply IH.
+  - intros items first r cols c y f st Hp H0 Hf Hr Hlt Hc Hclt Hlk Hnf _ IH cls.
+    destruct (sty_dec st) as [->|Hs]; [apply html_clo|].
+    rewrite html_list by exact Hs. rewrite Hp.
+    destruct items as [|x0 items']; [discriminate|]. cbn [nth_error] in H0. inversion H0; subst x0.
+    destruct (style_attr inline st cls) as [a cls0]. rewrite Hf.
+    rewrite (table_rows_err (cellf (tf_of st)) _ r 1 cls0 (HL cols) Hr); [reflexivity|lia|].
+    intro c0. unfold row_cells.
+    apply (table_cells_err (cellf (tf_of st)) (N.of_nat r + 1) cols c 1 c0 y Hc); [lia|].
+    intro c1. rewrite (cell_fmt_eq _ _ _ _ _ f Hlk Hnf). destruct (style_attr inline f c1) as [a1 c2]. rewrite IH. reflexivity.
   - intros cs f inner Hl _ IH cls. unfold to_td_with. rewrite Hl. cbn [negb andb]. rewrite IH. reflexivity.
   - intros cell cs f inner Hc _ IH cls. unfold to_td_with. rewrite Hc.
     destruct (style_attr inline f cls) as [a cls1]. rewrite IH. reflexivity.
+  - intros cs r inner Hl _ IH cls. unfold to_td_with. rewrite Hl. cbn [negb andb]. rewrite IH. reflexivity.
+  - intros cell cs r inner Hc _ IH cls. unfold to_td_with. rewrite Hc. rewrite IH. reflexivity.
   - intros d Hd _ IH cls. unfold to_td_with. destruct d; try discriminate; rewrite IH; reflexivity.
 Qed.
 
@@ -247,7 +301,8 @@ Qed.
 (* ---------- attribute lists ToHtml uses ---------- *)
 
 Definition attr_shapes : list (list str) :=
-  [[]; [s_style]; [s_class]; [s_colspan]; [s_colspan; s_style]; [s_colspan; s_class]; [s_href]; [s_href; s_target]].
+  [[]; [s_style]; [s_class]; [s_colspan]; [s_colspan; s_style]; [s_colspan; s_class]; [s_href]; [s_href; s_target];
+   [s_href; s_download]].
 
 Lemma forallb_fst : forall (P : str -> bool) (a : list (str * str)),
   forallb (fun kv => P (fst kv)) a = forallb P (map fst a).
@@ -314,21 +369,33 @@ Proof.
   destruct (c =? 95); [reflexivity|rewrite Hc; reflexivity].
 Qed.
 
+Lemma css_legal : forall (l : list (str * str)) s,
+  forallb (fun kv => legal (fst kv) && legal (snd kv)) l = true ->
+  match l with
+  | [] => None
+  | _ => Some (flat_map (fun kv : str * str => fst kv ++ 58 :: snd kv ++ [59])
+                        (sort_keys (map (fun kv => (replace_us (fst kv), snd kv)) l)))
+  end = Some s -> legal s = true.
+Proof.
+  intros l s Hl Hs. destruct l as [|p l']; [discriminate|]. inversion Hs; subst. clear Hs.
+  apply legal_flat_map. intros [k v] Hin.
+  assert (Hin' : In (k, v) (map (fun kv : str * str => (replace_us (fst kv), snd kv)) (p :: l')))
+    by (eapply Permutation_in; [apply Permutation_sym, sort_keys_perm|exact Hin]).
+  apply in_map_iff in Hin'. destruct Hin' as [[k0 v0] [E Hin0]]. cbn [fst snd] in E.
+  injection E as E1 E2. subst k v.
+  rewrite forallb_forall in Hl. specialize (Hl _ Hin0). cbn [fst snd] in Hl.
+  apply andb_true_iff in Hl. destruct Hl as [Lk Lv]. cbn [fst snd].
+  rewrite legal_app, (legal_replace_us k0 Lk). cbn [andb].
+  change (legal (58 :: v0 ++ [59]) = true). cbn [legal forallb]. fold (legal (v0 ++ [59])).
+  rewrite legal_app, Lv. reflexivity.
+Qed.
+
 Lemma style_str_legal : forall st s, legal_sty st = true -> style_str st = Some s -> legal s = true.
 Proof.
-  intros st s Hl Hs. destruct st as [|x|l|]; cbn [style_str] in Hs; try discriminate.
+  intros st s Hl Hs. destruct st as [|x|l| | |l tf]; cbn [style_str] in Hs; try discriminate.
   - inversion Hs; subst. exact Hl.
-  - destruct l as [|p l']; [discriminate|]. inversion Hs; subst. clear Hs.
-    apply legal_flat_map. intros [k v] Hin.
-    assert (Hin' : In (k, v) (map (fun kv : str * str => (replace_us (fst kv), snd kv)) (p :: l')))
-      by (eapply Permutation_in; [apply Permutation_sym, sort_keys_perm|exact Hin]).
-    apply in_map_iff in Hin'. destruct Hin' as [[k0 v0] [E Hin0]]. cbn [fst snd] in E.
-    injection E as E1 E2. subst k v.
-    cbn [legal_sty] in Hl. rewrite forallb_forall in Hl. specialize (Hl _ Hin0). cbn [fst snd] in Hl.
-    apply andb_true_iff in Hl. destruct Hl as [Lk Lv]. cbn [fst snd].
-    rewrite legal_app, (legal_replace_us k0 Lk). cbn [andb].
-    change (legal (58 :: v0 ++ [59]) = true). cbn [legal forallb]. fold (legal (v0 ++ [59])).
-    rewrite legal_app, Lv. reflexivity.
+  - apply (css_legal l s Hl Hs).
+  - cbn [legal_sty] in Hl. apply andb_true_iff in Hl. destruct Hl as [Hl _]. apply (css_legal l s Hl Hs).
 Qed.
 
 Lemma style_attr_spec : forall st cls, legal_sty st = true ->
@@ -408,31 +475,37 @@ Proof.
       apply tr_ok. apply okels_cons; [apply numcell_ok|apply morecell_ok].
 Qed.
 
-Lemma table_cells_seg : forall l, (forall x, In x l -> forall c, seg (okels strict) (td x c)) ->
-  forall i cls, seg (okels strict) (table_cells maxl td l i cls).
+End LoopSeg.
+
+Section TLoopSeg.
+Variable strict : bool.
+Variable cell : N -> N -> hval -> list str -> res.
+
+Lemma table_cells_seg : forall row l, (forall x, In x l -> forall col c, seg (okels strict) (cell row col x c)) ->
+  forall i cls, seg (okels strict) (table_cells maxl cell row l i cls).
 Proof.
-  induction l as [|x l IH]; intros H i cls.
+  intros row. induction l as [|x l IH]; intros H i cls.
   - exists []. split; [reflexivity|apply okels_nil].
   - cbn [table_cells]. destruct (i <=? maxl).
-    + pose proof (H x (or_introl eq_refl) cls) as Hx.
-      destruct (td x cls) as [[o cls1]|]; [|exact I]. cbn [bind].
+    + pose proof (H x (or_introl eq_refl) i cls) as Hx.
+      destruct (cell row i x cls) as [[o cls1]|]; [|exact I]. cbn [bind].
       pose proof (IH (fun y Hy => H y (or_intror Hy)) (i + 1) cls1) as Hr.
-      destruct (table_cells maxl td l (i + 1) cls1) as [[os cls2]|]; [|exact I]. cbn [bind seg] in *.
+      destruct (table_cells maxl cell row l (i + 1) cls1) as [[os cls2]|]; [|exact I]. cbn [bind seg] in *.
       destruct Hx as [fo [Eo Ho]]. destruct Hr as [fos [Eos Hos]]. subst o os.
       exists (fo ++ fos). split; [rewrite flat_map_app; reflexivity|apply okels_app; assumption].
     + exists [morecell]. split; [reflexivity|apply morecell_ok].
 Qed.
 
-Lemma table_rows_seg : forall l, (forall x, In x l -> forall c, seg (okels strict) (row_cells td x c)) ->
-  forall i cls, seg (okels strict) (table_rows maxl td l i cls).
+Lemma table_rows_seg : forall l, (forall x, In x l -> forall row c, seg (okels strict) (row_cells cell row x c)) ->
+  forall i cls, seg (okels strict) (table_rows maxl cell l i cls).
 Proof.
   induction l as [|x l IH]; intros H i cls.
   - exists []. split; [reflexivity|apply okels_nil].
-  - cbn [table_rows]. fold (row_cells td x cls). destruct (i <=? maxl).
-    + pose proof (H x (or_introl eq_refl) cls) as Hx.
-      destruct (row_cells td x cls) as [[o cls1]|]; [|exact I]. cbn [bind].
+  - cbn [table_rows]. fold (row_cells cell i x cls). destruct (i <=? maxl).
+    + pose proof (H x (or_introl eq_refl) i cls) as Hx.
+      destruct (row_cells cell i x cls) as [[o cls1]|]; [|exact I]. cbn [bind].
       pose proof (IH (fun y Hy => H y (or_intror Hy)) (i + 1) cls1) as Hr.
-      destruct (table_rows maxl td l (i + 1) cls1) as [[os cls2]|]; [|exact I]. cbn [bind seg] in *.
+      destruct (table_rows maxl cell l (i + 1) cls1) as [[os cls2]|]; [|exact I]. cbn [bind seg] in *.
       destruct Hx as [fo [Eo Ho]]. destruct Hr as [fos [Eos Hos]]. subst o os.
       exists (El s_tr [] fo :: fos). split.
       * cbn [flat_map ops_of map app]. norm_app. reflexivity.
@@ -441,16 +514,16 @@ Proof.
 Qed.
 
 Lemma row_cells_seg : forall x,
-  (forall c, seg (okels strict) (td x c)) ->
-  (forall cols, x = HL cols -> forall y, In y cols -> forall c, seg (okels strict) (td y c)) ->
-  forall c, seg (okels strict) (row_cells td x c).
+  (forall row col c, seg (okels strict) (cell row col x c)) ->
+  (forall cols, x = HL cols -> forall y, In y cols -> forall row col c, seg (okels strict) (cell row col y c)) ->
+  forall row c, seg (okels strict) (row_cells cell row x c).
 Proof.
-  intros x H1 H2 c. unfold row_cells.
+  intros x H1 H2 row c. unfold row_cells.
   destruct x; try (destruct (1 <=? maxl); [apply H1|exists [morecell]; split; [reflexivity|apply morecell_ok]]).
-  apply table_cells_seg. intros y Hy. apply (H2 _ eq_refl y Hy).
+  apply table_cells_seg. intros y Hy col c0. apply (H2 _ eq_refl y Hy).
 Qed.
 
-End LoopSeg.
+End TLoopSeg.
 
 Lemma map_rows_seg : forall strict l,
   (forall k f, In (k, f) l -> legal k = true /\ forall c, seg (okels strict) (f c)) ->
@@ -520,16 +593,20 @@ Fixpoint hval_ind' (P : hval -> Prop)
   (HM_ : forall l, Forall (fun kv => P (snd kv)) l -> P (HM l))
   (HFm : forall c cs st v, P v -> P (HFmt c cs st v))
   (HLk : forall l v, P v -> P (HLnk l v))
+  (HFi : forall name mime b64 size, P (HFile name mime b64 size))
+  (HFc : forall c cs r v, P r -> P v -> P (HFmtClo c cs r v))
   (v : hval) : P v :=
   match v with
   | HS s => HS_ s
   | HFloat s => HF_ s
   | HL l => HL_ l ((fix go (l : list hval) : Forall P l :=
-                      match l with [] => Forall_nil _ | x :: r => Forall_cons _ (hval_ind' P HS_ HF_ HL_ HM_ HFm HLk x) (go r) end) l)
+                      match l with [] => Forall_nil _ | x :: r => Forall_cons _ (hval_ind' P HS_ HF_ HL_ HM_ HFm HLk HFi HFc x) (go r) end) l)
   | HM l => HM_ l ((fix go (l : list (str * hval)) : Forall (fun kv => P (snd kv)) l :=
-                      match l with [] => Forall_nil _ | x :: r => Forall_cons _ (hval_ind' P HS_ HF_ HL_ HM_ HFm HLk (snd x)) (go r) end) l)
-  | HFmt c cs st v => HFm c cs st v (hval_ind' P HS_ HF_ HL_ HM_ HFm HLk v)
-  | HLnk l v => HLk l v (hval_ind' P HS_ HF_ HL_ HM_ HFm HLk v)
+                      match l with [] => Forall_nil _ | x :: r => Forall_cons _ (hval_ind' P HS_ HF_ HL_ HM_ HFm HLk HFi HFc (snd x)) (go r) end) l)
+  | HFmt c cs st v => HFm c cs st v (hval_ind' P HS_ HF_ HL_ HM_ HFm HLk HFi HFc v)
+  | HLnk l v => HLk l v (hval_ind' P HS_ HF_ HL_ HM_ HFm HLk HFi HFc v)
+  | HFile name mime b64 size => HFi name mime b64 size
+  | HFmtClo c cs r v => HFc c cs r v (hval_ind' P HS_ HF_ HL_ HM_ HFm HLk HFi HFc r) (hval_ind' P HS_ HF_ HL_ HM_ HFm HLk HFi HFc v)
   end.
 
 (* toHtml *)
@@ -544,13 +621,13 @@ Definition Qh (v : hval) : Prop :=
     seg (okels strict) (to_td v cls).
 
 Definition PQ (v : hval) : Prop :=
-  Ph v /\ Qh v /\ (forall cols, v = HL cols -> forall y, In y cols -> Qh y).
+  Ph v /\ Qh v /\ (forall cols, v = HL cols -> forall y, In y cols -> Ph y /\ Qh y).
 
 Lemma seg_clo : forall P v cls, seg P (html v SCloErr cls).
 Proof. intros. rewrite html_clo. exact I. Qed.
 
 (* a cell around a value that is not a Format *)
-Lemma td_plain : forall d, (match d with HFmt _ _ _ _ => false | _ => true end) = true -> Ph d -> Qh d.
+Lemma td_plain : forall d, (match d with HFmt _ _ _ _ | HFmtClo _ _ _ _ => false | _ => true end) = true -> Ph d -> Qh d.
 Proof.
   intros d Hd HP strict cls Ll Hs.
   assert (E : to_td d cls = bind (html d SNone cls) (fun o cls1 => Some (OOpen s_td :: o ++ [OClose], cls1)))
@@ -594,9 +671,78 @@ Proof.
       * rewrite forallb_app, Lsa, La. reflexivity.
 Qed.
 
+Lemma td_fmtclo : forall cell cs r inner, Ph r -> Ph inner -> Qh (HFmtClo cell cs r inner).
+Proof.
+  intros cell cs r inner HPr HPi strict cls Ll Hs.
+  cbn [legal_h] in Ll. apply andb_true_iff in Ll. destruct Ll as [Lr Li].
+  assert (Hs' : strict = true -> pfree r = true /\ pfree inner = true).
+  { intro H. specialize (Hs H). cbn [pfree] in Hs. apply andb_true_iff in Hs. exact Hs. }
+  unfold to_td_with.
+  set (span := if 1 <? cs then [OAttr s_colspan (itoa cs)] else []).
+  assert (Hspan : exists sa, span = attr_ops sa /\ forallb (fun kv => legal (snd kv)) sa = true /\
+                             (map fst sa = [] \/ map fst sa = [s_colspan])).
+  { unfold span. destruct (1 <? cs).
+    - exists [(s_colspan, itoa cs)]. cbn [attr_ops map fst snd forallb]. rewrite legal_itoa. auto.
+    - exists []. cbn. auto. }
+  destruct Hspan as [sa [Esa [Lsa Ssa]]]. rewrite Esa.
+  assert (K : forall x, Ph x -> legal_h x = true -> (strict = true -> pfree x = true) ->
+              seg (okels strict) (bind (html x SNone cls) (fun o cls1 => Some (OOpen s_td :: attr_ops sa ++ o ++ [OClose], cls1)))).
+  { intros x HP Lx Px. specialize (HP strict SNone cls Lx eq_refl (fun H => conj (Px H) eq_refl)).
+    destruct (html x SNone cls) as [[o cls1]|]; [|exact I]. cbn [bind seg] in *.
+    destruct HP as [f [Eo Hf]]. subst o. exists [El s_td sa f]. split; [rewrite ops_el; reflexivity|].
+    apply el_ok; [in_elems| |exact Lsa|exact Hf].
+    unfold attr_shapes. cbn [In]. destruct Ssa as [->| ->]; tauto. }
+  destruct (is_HL inner && negb cell).
+  - apply K; [exact HPr|exact Lr|]. intro H. apply (Hs' H).
+  - apply K; [exact HPi|exact Li|]. intro H. apply (Hs' H).
+Qed.
+
+Lemma assoc_some_in : forall A k (l : list (str * A)) v, assoc k l = Some v -> exists k', In (k', v) l.
+Proof.
+  induction l as [|[k0 v0] l IH]; intros v H; [discriminate|]. cbn [assoc] in H.
+  destruct (str_eqb k k0).
+  - inversion H; subst. exists k0. left. reflexivity.
+  - destruct (IH v H) as [k' Hin]. exists k'. right. exact Hin.
+Qed.
+
+Lemma tf_lookup_in : forall tf row col f, tf_lookup tf row col = Some f -> exists k, In (k, f) tf.
+Proof.
+  intros tf row col f H. unfold tf_lookup in H.
+  destruct (assoc (114 :: itoa row ++ 99 :: itoa col) tf) eqn:E1; [inversion H; subst; eapply assoc_some_in; exact E1|].
+  destruct (assoc (114 :: itoa row) tf) eqn:E2; [inversion H; subst; eapply assoc_some_in; exact E2|].
+  destruct (assoc (99 :: itoa col) tf) eqn:E3; [inversion H; subst; eapply assoc_some_in; exact E3|].
+  eapply assoc_some_in. exact H.
+Qed.
+
+Lemma tf_legal : forall st, legal_sty st = true -> forallb (fun kv => legal_sty (snd kv)) (tf_of st) = true.
+Proof.
+  intros st H. destruct st; try reflexivity. cbn [legal_sty] in H. apply andb_true_iff in H. destruct H as [_ H]. exact H.
+Qed.
+
+(* a table cell: with a format for its position the cell carries the format, the content is the item *)
+Lemma cell_seg : forall tf y, forallb (fun kv => legal_sty (snd kv)) tf = true -> Ph y -> Qh y ->
+  forall strict row col c, legal_h y = true -> (strict = true -> pfree y = true) ->
+  seg (okels strict) (cellf tf row col y c).
+Proof.
+  intros tf y Ltf HP HQ strict row col c Ly Hs.
+  destruct (cell_plain (tf_lookup tf row col)) eqn:Ecp; [rewrite (cell_plain_eq _ _ _ _ _ Ecp); apply HQ; assumption|].
+  destruct (tf_lookup tf row col) as [f|] eqn:E; [|discriminate].
+  assert (Hnf : f <> SCloId) by (intro; subst; discriminate).
+  rewrite (cell_fmt_eq _ _ _ _ _ f E Hnf).
+  destruct (tf_lookup_in tf row col f E) as [k Hin].
+  rewrite forallb_forall in Ltf. pose proof (Ltf _ Hin) as Lf. cbn [snd] in Lf.
+  destruct (style_attr_spec f c Lf) as [a [Ea [La Sa]]].
+  destruct (style_attr inline f c) as [ao cls1]. cbn [fst] in Ea. subst ao.
+  specialize (HP strict SNone cls1 Ly eq_refl (fun H => conj (Hs H) eq_refl)).
+  destruct (html y SNone cls1) as [[o cls2]|]; [|exact I]. cbn [bind seg] in *.
+  destruct HP as [fo [Eo Hf]]. subst o. exists [El s_td a fo]. split; [rewrite ops_el; reflexivity|].
+  apply el_ok; [in_elems| |exact La|exact Hf].
+  unfold attr_shapes. cbn [In]. destruct Sa as [->|[->| ->]]; tauto.
+Qed.
+
 Theorem html_seg : forall v, PQ v.
 Proof.
-  induction v as [s|s|items IH|l IH|c cs fs inner IH|lk inner IH] using hval_ind'.
+  induction v as [s|s|items IH|l IH|c cs fs inner IH|lk inner IH|name mime b64 size|c cs r inner IHr IHi] using hval_ind'.
   - (* string / int / bool *)
     assert (HP : Ph (HS s)).
     { intros strict st cls Ll Lst Hs. destruct (sty_dec st) as [->|Hn]; [apply seg_clo|].
@@ -611,7 +757,7 @@ Proof.
   - (* list *)
     assert (HQ : forall y, In y items -> Qh y).
     { rewrite Forall_forall in IH. intros y Hy. apply (IH y Hy). }
-    assert (HR : forall x, In x items -> forall cols, x = HL cols -> forall y, In y cols -> Qh y).
+    assert (HR : forall x, In x items -> forall cols, x = HL cols -> forall y, In y cols -> Ph y /\ Qh y).
     { rewrite Forall_forall in IH. intros x Hx. apply (IH x Hx). }
     assert (HP : Ph (HL items)).
     { intros strict st cls Ll Lst Hs. destruct (sty_dec st) as [->|Hn]; [apply seg_clo|].
@@ -627,23 +773,28 @@ Proof.
         { intros H x Hx. destruct (Hs H) as [A _]. cbn [pfree] in A. rewrite forallb_forall in A. apply A. exact Hx. }
         assert (TD : forall x, In x (first :: rest) -> forall c0, seg (okels strict) (to_td x c0)).
         { intros x Hx c0. apply (HQ x Hx strict c0 (Ll x Hx)). intro H. apply Hpf; assumption. }
-        assert (ROWS : seg (okels strict) (if is_HL first then table_rows maxl to_td (first :: rest) 1 cls0
+        pose proof (tf_legal st Lst) as Ltf.
+        assert (ROWS : seg (okels strict) (if is_HL first then table_rows maxl (cellf (tf_of st)) (first :: rest) 1 cls0
                                            else simple_rows maxl to_td (first :: rest) 1 cls0)).
         { destruct (is_HL first).
-          - apply table_rows_seg. intros x Hx. apply row_cells_seg; [apply TD; exact Hx|].
-            intros cols Ex y Hy c0. subst x.
-            pose proof (Ll _ Hx) as Lx. cbn [legal_h] in Lx. rewrite forallb_forall in Lx.
-            apply (HR _ Hx cols eq_refl y Hy strict c0 (Lx y Hy)).
-            intro H. pose proof (Hpf H _ Hx) as Px. cbn [pfree] in Px. rewrite forallb_forall in Px. apply Px. exact Hy.
+          - apply table_rows_seg. intros x Hx. apply row_cells_seg.
+            + intros row col c0. rewrite Forall_forall in IH.
+              apply (cell_seg (tf_of st) x Ltf (proj1 (IH x Hx)) (HQ x Hx) strict row col c0 (Ll x Hx)).
+              intro H. apply Hpf; assumption.
+            + intros cols Ex y Hy row col c0. subst x.
+              pose proof (Ll _ Hx) as Lx. cbn [legal_h] in Lx. rewrite forallb_forall in Lx.
+              destruct (HR _ Hx cols eq_refl y Hy) as [Py Qy].
+              apply (cell_seg (tf_of st) y Ltf Py Qy strict row col c0 (Lx y Hy)).
+              intro H. pose proof (Hpf H _ Hx) as Px. cbn [pfree] in Px. rewrite forallb_forall in Px. apply Px. exact Hy.
           - apply simple_rows_seg. exact TD. }
-        destruct (if is_HL first then table_rows maxl to_td (first :: rest) 1 cls0
+        destruct (if is_HL first then table_rows maxl (cellf (tf_of st)) (first :: rest) 1 cls0
                   else simple_rows maxl to_td (first :: rest) 1 cls0) as [[rows clsN]|]; [|exact I].
         cbn [bind seg] in *. destruct ROWS as [fr [Er Hr]]. subst rows.
         exists [El s_table a fr]. split; [rewrite ops_el; reflexivity|].
         apply okels_okf. apply el_ok; [in_elems| |exact La|apply okels_okf; exact Hr].
         unfold attr_shapes. cbn [In]. destruct Sa as [->|[->| ->]]; tauto. }
     split; [exact HP|]. split; [apply td_plain; [reflexivity|exact HP]|].
-    intros cols E y Hy. inversion E; subst cols. apply HQ. exact Hy.
+    intros cols E y Hy. inversion E; subst cols. rewrite Forall_forall in IH. split; [apply (IH y Hy)|apply HQ; exact Hy].
   - (* map *)
     assert (HP : Ph (HM l)).
     { intros strict st cls Ll Lst Hs. destruct (sty_dec st) as [->|Hn]; [apply seg_clo|].
@@ -683,6 +834,29 @@ Proof.
       destruct IP as [f [Eo Hf]]. subst o. exists [El s_a [(s_href, lk)] f]. split; [rewrite ops_el; reflexivity|].
       apply okels_okf. apply el_ok; [in_elems|in_shapes| |exact Hf]. cbn [forallb snd]. rewrite Lk. reflexivity. }
     split; [exact HP|]. split; [apply td_plain; [reflexivity|exact HP]|discriminate].
+  - (* File *)
+    assert (HP : Ph (HFile name mime b64 size)).
+    { intros strict st cls Ll Lst Hs. destruct (sty_dec st) as [->|Hn]; [apply seg_clo|].
+      rewrite html_file by exact Hn. cbn [legal_h] in Ll.
+      apply andb_true_iff in Ll. destruct Ll as [Ll Lsz]. apply andb_true_iff in Ll. destruct Ll as [Ll Lb].
+      apply andb_true_iff in Ll. destruct Ll as [Ln Lm].
+      assert (Lh : legal (file_href mime b64) = true).
+      { unfold file_href. rewrite !legal_app, Lb. destruct mime; [reflexivity|]. rewrite Lm. reflexivity. }
+      assert (Lt : legal (file_text name size) = true).
+      { unfold file_text. rewrite !legal_app, Ln, Lsz. reflexivity. }
+      exists [El s_a [(s_href, file_href mime b64); (s_download, name)] (map Tx [file_text name size])].
+      split; [reflexivity|]. apply okels_okf. apply el_ok; [in_elems|in_shapes| |].
+      - cbn [forallb snd]. rewrite Lh, Ln. reflexivity.
+      - apply okf_txs. cbn [forallb]. rewrite Lt. reflexivity. }
+    split; [exact HP|]. split; [apply td_plain; [reflexivity|exact HP]|discriminate].
+  - (* Format with a closure style that succeeds *)
+    destruct IHr as [IPr _]. destruct IHi as [IPi _].
+    assert (HP : Ph (HFmtClo c cs r inner)).
+    { intros strict st cls Ll Lst Hs. destruct (sty_dec st) as [->|Hn]; [apply seg_clo|].
+      rewrite html_fmtclo by exact Hn. cbn [legal_h] in Ll. apply andb_true_iff in Ll. destruct Ll as [Lr Li].
+      apply IPr; [exact Lr|reflexivity|]. intro H. destruct (Hs H) as [A _]. cbn [pfree] in A.
+      apply andb_true_iff in A. destruct A as [A B]. auto. }
+    split; [exact HP|]. split; [apply td_fmtclo; assumption|discriminate].
 Qed.
 
 End Model.
